@@ -101,3 +101,43 @@ pub fn drv_c09_joiner(me: usize, target: usize) {
     verif_thread(target).join();
     verif_work_done_check();
 }
+
+stub! {
+    fn verif_count_is_zero() -> bool;
+    fn verif_count_inc();
+    fn verif_count_dec();
+}
+
+/// role 6: consumer of a counting protocol: waits while the count is zero, then takes one
+pub fn drv_c09_consumer(me: usize) {
+    verif_mutex().lock_op();
+    verif_cs_enter(me);
+    while verif_count_is_zero() {
+        verif_cs_leave(me);
+        verif_cond().wait(verif_mutex());
+        verif_cs_enter(me);
+    }
+    verif_count_dec();
+    verif_cs_leave(me);
+    verif_mutex().unlock_op();
+}
+
+/// role 7: producer: `rounds` times { lock; count += 1; unlock } with the notification either inside the
+/// critical section or — as the API allows — after the mutex has been released
+pub fn drv_c09_producer(me: usize, rounds: usize, all: bool, outside: bool) {
+    let mut i = 0;
+    while i < rounds {
+        verif_mutex().lock_op();
+        verif_cs_enter(me);
+        verif_count_inc();
+        if !outside {
+            if all { verif_cond().notify_all(); } else { verif_cond().notify_one(); }
+        }
+        verif_cs_leave(me);
+        verif_mutex().unlock_op();
+        if outside {
+            if all { verif_cond().notify_all(); } else { verif_cond().notify_one(); }
+        }
+        i += 1;
+    }
+}
